@@ -164,7 +164,7 @@ func (p *GenericPacketForwarder) udpSender(serverConn *net.UDPConn) {
 		if val.JSONString != "" {
 			p.context.GwEventRouter.Publish(val.GatewayEUI, gwevents.NewTx(val.JSONString))
 		}
-		targetAddr, err := net.ResolveUDPAddr("udp", fmt.Sprintf("%s:%d", val.Host, val.Port))
+		targetAddr, err := net.ResolveUDPAddr("udp", net.JoinHostPort(val.Host, fmt.Sprint(val.Port)))
 		if err != nil {
 			lg.Warning("Unable to resolve target address for gateway (%s:%d): %v", val.Host, val.Port, err)
 			continue
